@@ -33,15 +33,24 @@ class GenState(object):
     def __init__(self, rng):
         self.gen = rng.randrange(1, 5)
         self.next_member = 1
+        # Kafka's contract: a coordinator that has forgotten a member answers a JoinGroup quoting that
+        # (non-empty) member id with UnknownMemberId.  `known` = member ids the coordinator remembers.
+        self.known = set()
+
+    def forget(self):
+        self.known.clear()
 
     def join_ok(self, rng, world):
         self.gen += rng.choice([1, 1, 1, 2])
-        cur = world.group.member_id
-        if cur and rng.random() < 0.9:
+        cur = world.join_member
+        if cur:
+            if cur not in self.known:
+                return "joinDone err:unknownMemberId"
             m = int(cur[1:])
         else:
             m = self.next_member
             self.next_member += 1
+        self.known.add("m%d" % m)
         leader = rng.random() < 0.5
         n = rng.randrange(1, 4) if leader else 0
         return "joinDone ok %d %d %d %d" % (m, self.gen, 1 if leader else 0, n)
@@ -63,6 +72,14 @@ def pick_err(rng, p_common=0.6):
 
 
 def reply(rng, gs, world, fam, p_ok):
+    ev = REPLY_EVENT[fam]
+    r = _reply(rng, gs, world, fam, p_ok)
+    if r.endswith("err:unknownMemberId") or r.endswith("err:invalidGroupId"):
+        gs.forget()
+    return r
+
+
+def _reply(rng, gs, world, fam, p_ok):
     ev = REPLY_EVENT[fam]
     if rng.random() < p_ok:
         if fam == "join":
@@ -96,7 +113,10 @@ def choose(rng, gs, world, p_ok, p_stop, p_cerr):
         return ["stop"]
     if r < p_stop + p_cerr:
         if e["cerr"]:
-            return ["consumerErr %d %s" % (rng.choice(e["cerr"]), pick_err(rng, 0.5))]
+            k = pick_err(rng, 0.5)
+            if k in ("unknownMemberId", "invalidGroupId"):
+                gs.forget()
+            return ["consumerErr %d %s" % (rng.choice(e["cerr"]), k)]
     elif r < p_stop + p_cerr + 0.01:
         return ["start"]  # RestartError, or a restart after stop
     if not acts:
